@@ -293,6 +293,74 @@ func (a *A) ruleKeyTuplePositional() int {
 				}
 			}
 			if loop == nil {
+				// the tuple made with its final length and written by position: vals := make([]any, len(groupFields));
+				// for i := range groupFields { … vals[i] = v }, one write on every way round the loop
+				if ms, isMs := s.val.(*ssa.MakeSlice); isMs {
+					okLen := false
+					if lc, isCall := ms.Len.(*ssa.Call); isCall {
+						if cc, isLen := isBuiltinCall(lc, "len"); isLen {
+							if t := TermOf(cc.Args[0], nil); t.Kind == "field" && t.Field == gf {
+								okLen = true
+							}
+						}
+					}
+					for _, l := range rangeLoops(s.fn) {
+						if l.X == nil || !okLen {
+							continue
+						}
+						if t := TermOf(l.X, nil); t.Kind != "field" || t.Field != gf {
+							continue
+						}
+						// the loop's index: the header's counter (range form) or the index phi
+						var idx ssa.Value = l.Index
+						if idx == nil {
+							for _, in := range l.Header.Instrs {
+								if bo, ok := in.(*ssa.BinOp); ok && bo.Op == token.ADD {
+									idx = bo
+								}
+							}
+						}
+						var stores []*ssa.Store
+						other := false
+						for _, r := range *ms.Referrers() {
+							ia, isIA := r.(*ssa.IndexAddr)
+							if !isIA {
+								continue
+							}
+							for _, rr := range *ia.Referrers() {
+								if st, isSt := rr.(*ssa.Store); isSt && st.Addr == ssa.Value(ia) {
+									if ia.Index == idx && l.Blocks[st.Block()] {
+										stores = append(stores, st)
+									} else {
+										other = true
+									}
+								}
+							}
+						}
+						if len(stores) == 0 || other {
+							continue
+						}
+						every := true
+						for _, p := range l.Header.Preds {
+							if !l.Blocks[p] {
+								continue
+							}
+							dom := false
+							for _, st := range stores {
+								if st.Block() == p || st.Block().Dominates(p) {
+									dom = true
+								}
+							}
+							if !dom {
+								every = false
+							}
+						}
+						if every {
+							a.Ok(construct, mu.Pos(), "the stored tuple has one slot per group field and slot i is written in iteration i of the loop over groupFields, on every way round")
+							return
+						}
+					}
+				}
 				a.Und(construct, mu.Pos(), "the tuple stored in groupKeyVals is not built by appends in a loop over groupFields (in %s)", fname(s.fn))
 				return
 			}
